@@ -50,6 +50,8 @@ type Case struct {
 	DelayMs  int    `json:"delay_ms,omitempty"` // extra wait before the cancel
 	Nested   bool   `json:"nested,omitempty"`   // via condition: the stage with the bad condition sits in a pipeline that is itself a stage
 	Stubborn bool   `json:"stubborn,omitempty"` // the long command ignores SIGINT: it dies only after the interpreter's 2 s kill grace
+	Allow    bool   `json:"allow_failure,omitempty"` // the tasks allow failure: an interruption is still not a success
+	Tmo      bool   `json:"timeout,omitempty"`       // the tasks carry a (generous) timeout of their own
 	Ctx      bool   `json:"ctx,omitempty"`      // the tasks run in an execution context that has before/after commands of its own
 }
 
@@ -103,6 +105,11 @@ func scenario(c Case, dir string, scale int) string {
 		if c.Ctx {
 			tk.Context = "cx"
 		}
+		tk.AllowFailure = c.Allow
+		if c.Tmo {
+			d := 90 * time.Second
+			tk.Timeout = &d
+		}
 		return tk
 	}
 	var ropts []runner.Opts
@@ -119,7 +126,7 @@ func scenario(c Case, dir string, scale int) string {
 	errs := make([]error, c.K)
 	var wg sync.WaitGroup
 	var sd *scheduler.Scheduler
-	var waiting []*scheduler.Stage
+	var waiting, inflight []*scheduler.Stage
 	schedDone := make(chan error, 1)
 	useSched := c.Via != "runner"
 	var graph *scheduler.ExecutionGraph
@@ -127,7 +134,9 @@ func scenario(c Case, dir string, scale int) string {
 		var ss []*scheduler.Stage
 		for i := 0; i < c.K; i++ {
 			tk := mk(i)
-			ss = append(ss, &scheduler.Stage{Name: tk.Name, Task: tk})
+			st := &scheduler.Stage{Name: tk.Name, Task: tk}
+			ss = append(ss, st)
+			inflight = append(inflight, st)
 		}
 		for j := 0; j < c.W; j++ {
 			tk := task.FromCommands(fmt.Sprintf("printf 'W:%d\\n' >> %s", j, log))
@@ -364,6 +373,13 @@ func scenario(c Case, dir string, scale int) string {
 			}
 		}
 	}
+	if useSched && c.Via != "condition" && (c.Phase == "command" || c.Phase == "second-command" || c.Phase == "before-hook") {
+		for _, st := range inflight {
+			if st.ReadStatus() == scheduler.StatusDone {
+				return fmt.Sprintf("stage %s was interrupted inside a command and is reported done", st.Name)
+			}
+		}
+	}
 	if useSched && c.Via != "condition" && c.Phase != "after-finish" {
 		for _, st := range waiting {
 			if st.ReadStatus() == scheduler.StatusDone {
@@ -508,7 +524,10 @@ func record(c Case) {
 	if c.Ctx {
 		drv.Class("tasks in a context with before/after commands")
 	}
-	drv.NonTrivial(fmt.Sprintf("%d/%d/%s/%s/%s/%v/%v/%v", c.K, c.W, c.Phase, c.Double, c.Via, c.Stubborn, c.Nested, c.Ctx))
+	if c.Allow || c.Tmo {
+		drv.Class("tasks with allow_failure and/or a timeout of their own")
+	}
+	drv.NonTrivial(fmt.Sprintf("%d/%d/%s/%s/%s/%v/%v/%v", c.K, c.W, c.Phase, c.Double, c.Via, c.Stubborn, c.Nested, c.Ctx) + fmt.Sprint(c.Allow, c.Tmo))
 }
 
 func normalise(c Case) Case {
@@ -555,6 +574,8 @@ func genCase(rt *rapid.T) Case {
 		Stubborn: rapid.IntRange(0, 3).Draw(rt, "stubborn") == 0,
 		Nested:   rapid.Bool().Draw(rt, "nested-condition"),
 		Ctx:      rapid.IntRange(0, 2).Draw(rt, "context-hooks") == 0,
+		Allow:    rapid.IntRange(0, 2).Draw(rt, "allow-failure") == 0,
+		Tmo:      rapid.IntRange(0, 2).Draw(rt, "own-timeout") == 0,
 	}
 	return normalise(c)
 }
@@ -624,6 +645,20 @@ func TestMatrix(t *testing.T) {
 					if !seen[c.canon()] {
 						seen[c.canon()] = true
 						cases = append(cases, c)
+					}
+				}
+			}
+			for fl := 1; fl < 4; fl++ {
+				for _, ph := range []string{"command", "second-command", "before-hook"} {
+					if k == 0 || (ph != "command" && (k > 2 || w > 0)) {
+						continue
+					}
+					for _, via := range []string{"runner", "scheduler"} {
+						c := normalise(Case{K: k, W: w, Phase: ph, Double: "once", Via: via, Allow: fl&1 != 0, Tmo: fl&2 != 0})
+						if !seen[c.canon()] {
+							seen[c.canon()] = true
+							cases = append(cases, c)
+						}
 					}
 				}
 			}
